@@ -312,3 +312,213 @@ Proof.
 Qed.
 Lemma rb_current_refuted_two : ~ rb_valid Z (insert_all Z Z.ltb false false [0; 1]).
 Proof. intros H. apply rb_ok_iff in H. vm_compute in H. discriminate. Qed.
+
+(* ================================================================== Part 3: the MS-CFB validator is sound *)
+(* declarative notions *)
+Inductive chain (t : list Z) : Z -> list Z -> Prop :=
+| chain_end : chain t ENDOFCHAIN []
+| chain_step s l : 0 <= s < zlen t -> chain t (znth s t) l -> chain t s (s :: l).
+
+Inductive difat_chain (b : bytes) (ss nsect : Z) : Z -> list Z -> Prop :=
+| dc_end : difat_chain b ss nsect ENDOFCHAIN []
+| dc_step s l : 0 <= s < nsect -> difat_chain b ss nsect (difat_next b ss s) l -> difat_chain b ss nsect s (s :: l).
+
+Inductive dtree (ents : list dirent) : Z -> tree Z -> Prop :=
+| dt_none : dtree ents NOSTREAM E
+| dt_node i e l r : nth_ent ents i = Some e -> is_object e = true ->
+    dtree ents (d_left e) l -> dtree ents (d_right e) r ->
+    dtree ents i (T (if d_color e =? 0 then Red else Black) l i r).
+
+Definition valid_with (b : bytes) (L : layout) : Prop :=
+  let h := parse_header b in
+  let ss := sector_size h in
+  let nsect := sector_count b h in
+  let fat := fat_of b ss (l_fatsects L) in
+  let ents := dirents b ss (l_dir L) in
+  let minifat := fat_of b ss (l_mf L) in
+  let owned := l_fatsects L ++ l_difsects L ++ l_dir L ++ l_mf L ++ l_ms L ++ concat (l_big L) in
+  let nodes := concat (map (elements Z) (l_trees L)) in
+  header_ok b = true /\
+  (* DIFAT: its sector chain, the FAT sector list it carries (no gaps), header counts *)
+  difat_chain b ss nsect (h_dif0 h) (l_difsects L) /\ zlen (l_difsects L) = h_ndif h /\
+  (exists k, difat_entries b h (l_difsects L) = l_fatsects L ++ repeat FREESECT k) /\
+  Forall (fun s => 0 <= s < nsect) (l_fatsects L) /\ zlen (l_fatsects L) = h_nfat h /\
+  (* the FAT covers the file and allocates nothing beyond it *)
+  nsect <= zlen fat /\ (forall i, nsect <= i < zlen fat -> znth i fat = FREESECT) /\
+  (* FAT and DIFAT sectors carry their markers and nothing else does *)
+  (forall i, In i (l_fatsects L) <-> 0 <= i < zlen fat /\ znth i fat = FATSECT) /\
+  (forall i, In i (l_difsects L) <-> 0 <= i < zlen fat /\ znth i fat = DIFSECT) /\
+  (* directory chain, mini FAT chain, header counts *)
+  chain fat (h_dir0 h) (l_dir L) /\ l_dir L <> [] /\
+  (if h_major h =? 3 then h_ndir h = 0 else h_ndir h = zlen (l_dir L)) /\
+  chain fat (h_mf0 h) (l_mf L) /\ zlen (l_mf L) = h_nmf h /\
+  (* directory entries: syntactically well formed, entry 0 is the only root *)
+  Forall (fun e => dirent_ok (h_major h) e = true) ents /\
+  (exists root rest, ents = root :: rest /\ d_type root = 5 /\ Forall (fun e => d_type e <> 5) rest /\
+     (* mini stream container and the streams stored in it *)
+     chain fat (d_start root) (l_ms L) /\ d_size root <= zlen (l_ms L) * ss /\
+     (forall i, zlen (l_ms L) * ss / 64 <= i < zlen minifat -> znth i minifat = FREESECT) /\
+     Forall2 (fun e ch => chain minifat (d_start e) ch /\ zlen ch = ceil_div (d_size e) 64 /\
+                          Forall (fun s => (s + 1) * 64 <= d_size root) ch)
+             (mini_streams (h_cutoff h) ents) (l_mini L)) /\
+  (* streams at or above the cutoff *)
+  Forall2 (fun e ch => chain fat (d_start e) ch /\ zlen ch = ceil_div (d_size e) ss)
+          (big_streams (h_cutoff h) ents) (l_big L) /\
+  (* every allocated sector belongs to exactly one structure; nothing else is allocated *)
+  NoDup owned /\ (forall i, In i owned <-> 0 <= i < nsect /\ znth i fat <> FREESECT) /\
+  NoDup (concat (l_mini L)) /\
+  (forall i, In i (concat (l_mini L)) <-> 0 <= i < zlen minifat /\ znth i minifat <> FREESECT) /\
+  (* each storage's children: a tree of entries, ordered by the MS-CFB name order, valid red-black;
+     every stream/storage entry is in exactly one tree *)
+  Forall2 (fun e t => dtree ents (d_child e) t /\ bst Z (ent_lt ents) t /\ rb_valid Z t) (storages ents) (l_trees L) /\
+  NoDup nodes /\ (forall i, In i nodes <-> exists e, nth_ent ents i = Some e /\ is_object e = true).
+
+Definition cfb_valid (b : bytes) : Prop := exists L, valid_with b L.
+
+(* ------------------------------------------------------------------ small lemmas *)
+Lemma walk_sound fuel t s l : walk fuel t (zlen t) s = Some l -> chain t s l.
+Proof.
+  revert s l. induction fuel as [|k IH]; intros s l; cbn [walk].
+  - destruct (s =? ENDOFCHAIN) eqn:E; [|discriminate]. intros H; inversion H. apply Z.eqb_eq in E. subst. constructor.
+  - destruct (s =? ENDOFCHAIN) eqn:E.
+    + intros H; inversion H. apply Z.eqb_eq in E. subst. constructor.
+    + destruct ((0 <=? s) && (s <? zlen t)) eqn:B; [|discriminate].
+      destruct (walk k t (zlen t) (znth s t)) as [l'|] eqn:W; [|discriminate].
+      intros H; inversion H; subst. constructor; [lia | apply IH; exact W].
+Qed.
+Lemma walk_table_sound t s l : walk_table t s = Some l -> chain t s l.
+Proof. apply walk_sound. Qed.
+
+Lemma walk_difat_sound fuel b ss nsect s l : walk_difat fuel b ss nsect s = Some l -> difat_chain b ss nsect s l.
+Proof.
+  revert s l. induction fuel as [|k IH]; intros s l; cbn [walk_difat].
+  - destruct (s =? ENDOFCHAIN) eqn:E; [|discriminate]. intros H; inversion H. apply Z.eqb_eq in E. subst. constructor.
+  - destruct (s =? ENDOFCHAIN) eqn:E.
+    + intros H; inversion H. apply Z.eqb_eq in E. subst. constructor.
+    + destruct ((0 <=? s) && (s <? nsect)) eqn:B; [|discriminate].
+      destruct (walk_difat k b ss nsect (difat_next b ss s)) as [l'|] eqn:W; [|discriminate].
+      intros H; inversion H; subst. constructor; [lia | apply IH; exact W].
+Qed.
+
+Lemma take_drop_used l : l = take_used l ++ drop_used l.
+Proof.
+  induction l as [|v r IH]; cbn; [reflexivity|]. destruct (v =? FREESECT); cbn; [reflexivity|]. f_equal. exact IH.
+Qed.
+Lemma all_free_repeat l : all_free l = true -> l = repeat FREESECT (length l).
+Proof.
+  induction l as [|v r IH]; cbn; [reflexivity|]. intros H. apply andb_true_iff in H as [H1 H2].
+  apply Z.eqb_eq in H1. subst. f_equal. apply IH. exact H2.
+Qed.
+Lemma all_free_nth l : all_free l = true -> forall n, (n < length l)%nat -> nth n l FREESECT = FREESECT.
+Proof.
+  induction l as [|v r IH]; cbn; intros H n Hn; [lia|]. apply andb_true_iff in H as [H1 H2].
+  destruct n; [apply Z.eqb_eq; exact H1 | apply IH; [exact H2 | lia]].
+Qed.
+Lemma all_free_zdrop n l : 0 <= n -> all_free (zdrop n l) = true -> forall i, n <= i < zlen l -> znth i l = FREESECT.
+Proof.
+  intros Hn H i Hi. unfold znth. destruct (i <? 0) eqn:E; [lia|].
+  pose proof (all_free_nth _ H (Z.to_nat i - Z.to_nat n)%nat) as Hx.
+  unfold zdrop in Hx. rewrite nth_skipn in Hx. rewrite skipn_length in Hx. unfold zlen in Hi.
+  replace (Z.to_nat n + (Z.to_nat i - Z.to_nat n))%nat with (Z.to_nat i) in Hx by lia. apply Hx. lia.
+Qed.
+
+Lemma forallb2_Forall2 {X Y} (f : X -> Y -> bool) a b : forallb2 f a b = true -> Forall2 (fun x y => f x y = true) a b.
+Proof.
+  revert b. induction a as [|x a IH]; intros [|y b]; cbn; intros H; try discriminate; [constructor|].
+  apply andb_true_iff in H as [H1 H2]. constructor; [exact H1 | apply IH; exact H2].
+Qed.
+Lemma map_opt_Forall2 {X Y} (f : X -> option Y) l ys : map_opt f l = Some ys -> Forall2 (fun x y => f x = Some y) l ys.
+Proof.
+  revert ys. induction l as [|x l IH]; cbn; intros ys H.
+  - inversion H. constructor.
+  - destruct (f x) as [y|] eqn:E; [|discriminate]. destruct (map_opt f l) as [ys'|]; [|discriminate].
+    inversion H; subst. constructor; [exact E | apply IH; reflexivity].
+Qed.
+Lemma Forall2_and {X Y} (P Q : X -> Y -> Prop) a b : Forall2 P a b -> Forall2 Q a b -> Forall2 (fun x y => P x y /\ Q x y) a b.
+Proof. induction 1; intros H2; inversion H2; subst; constructor; auto. Qed.
+Lemma Forall2_imp {X Y} (P Q : X -> Y -> Prop) a b : (forall x y, P x y -> Q x y) -> Forall2 P a b -> Forall2 Q a b.
+Proof. intros H. induction 1; constructor; auto. Qed.
+
+(* indices carrying a given value *)
+Lemma marked_In v t : forall j i, In i (marked v j t) <-> j <= i < j + zlen t /\ nth (Z.to_nat (i - j)) t FREESECT = v.
+Proof.
+  induction t as [|x r IH]; intros j i; cbn [marked].
+  - cbn. rewrite zlen_nil. split; [tauto | lia].
+  - rewrite zlen_cons. pose proof (zlen_nonneg r) as Hr. destruct (x =? v) eqn:E.
+    + cbn [In]. rewrite IH. apply Z.eqb_eq in E. split.
+      * intros [->|[H1 H2]]; [split; [lia|]; rewrite Z.sub_diag; exact E|].
+        split; [lia|]. replace (Z.to_nat (i - j)) with (S (Z.to_nat (i - (j + 1)))) by lia. exact H2.
+      * intros [H1 H2]. destruct (Z.eq_dec i j) as [->|Hne]; [left; reflexivity|right].
+        split; [lia|]. replace (Z.to_nat (i - j)) with (S (Z.to_nat (i - (j + 1)))) in H2 by lia. exact H2.
+    + rewrite IH. apply Z.eqb_neq in E. split.
+      * intros [H1 H2]. split; [lia|]. replace (Z.to_nat (i - j)) with (S (Z.to_nat (i - (j + 1)))) by lia. exact H2.
+      * intros [H1 H2]. destruct (Z.eq_dec i j) as [->|Hne]; [rewrite Z.sub_diag in H2; cbn in H2; congruence|].
+        split; [lia|]. replace (Z.to_nat (i - j)) with (S (Z.to_nat (i - (j + 1)))) in H2 by lia. exact H2.
+Qed.
+Lemma marked_lb v t : forall j, Forall (fun i => j <= i) (marked v j t).
+Proof.
+  induction t as [|x r IH]; intros j; cbn [marked]; [constructor|].
+  destruct (x =? v); [constructor; [lia|]|]; eapply Forall_impl; [|apply IH| |apply IH]; cbn; intros; lia.
+Qed.
+Lemma marked_NoDup v t : forall j, NoDup (marked v j t).
+Proof.
+  induction t as [|x r IH]; intros j; cbn [marked]; [constructor|].
+  destruct (x =? v); [|apply IH]. constructor; [|apply IH].
+  intros Hin. pose proof (marked_lb v r (j + 1)) as Hlb. rewrite Forall_forall in Hlb. specialize (Hlb _ Hin). lia.
+Qed.
+Lemma znth_nth i t : 0 <= i -> znth i t = nth (Z.to_nat i) t FREESECT.
+Proof. intros. unfold znth. destruct (i <? 0) eqn:E; [lia|reflexivity]. Qed.
+
+(* indices of used entries *)
+Lemma used_from_In t : forall n j i, In i (used_from j n t) <->
+  j <= i < j + Z.of_nat (Nat.min n (length t)) /\ nth (Z.to_nat (i - j)) t FREESECT <> FREESECT.
+Proof.
+  induction t as [|x r IH]; intros n j i.
+  - destruct n; cbn; (split; [tauto|lia]).
+  - destruct n as [|k]; [cbn; split; [tauto|lia]|]. cbn [used_from length Nat.min].
+    destruct (x =? FREESECT) eqn:E.
+    + rewrite IH. apply Z.eqb_eq in E. split.
+      * intros [H1 H2]. split; [lia|]. replace (Z.to_nat (i - j)) with (S (Z.to_nat (i - (j + 1)))) by lia. exact H2.
+      * intros [H1 H2]. destruct (Z.eq_dec i j) as [->|Hne]; [rewrite Z.sub_diag in H2; cbn in H2; congruence|].
+        split; [lia|]. replace (Z.to_nat (i - j)) with (S (Z.to_nat (i - (j + 1)))) in H2 by lia. exact H2.
+    + cbn [In]. rewrite IH. apply Z.eqb_neq in E. split.
+      * intros [->|[H1 H2]]; [split; [lia|]; rewrite Z.sub_diag; exact E|].
+        split; [lia|]. replace (Z.to_nat (i - j)) with (S (Z.to_nat (i - (j + 1)))) by lia. exact H2.
+      * intros [H1 H2]. destruct (Z.eq_dec i j) as [->|Hne]; [left; reflexivity|right].
+        split; [lia|]. replace (Z.to_nat (i - j)) with (S (Z.to_nat (i - (j + 1)))) in H2 by lia. exact H2.
+Qed.
+Lemma used_from_NoDup t : forall n j, NoDup (used_from j n t).
+Proof.
+  induction t as [|x r IH]; intros n j; destruct n as [|k]; cbn [used_from]; try constructor.
+  destruct (x =? FREESECT); [apply IH|]. constructor; [|apply IH].
+  intros Hin. apply used_from_In in Hin. lia.
+Qed.
+
+(* sorted equality gives "same elements, no repetition" *)
+Lemma sort_eq_spec l u : list_eqb Z.eqb (ZSort.sort l) u = true -> NoDup u -> NoDup l /\ forall i, In i l <-> In i u.
+Proof.
+  intros H Hu. apply list_eqb_Z_eq in H. pose proof (ZSort.Permuted_sort l) as P. rewrite H in P.
+  split.
+  - eapply Permutation_NoDup; [apply Permutation_sym; exact P | exact Hu].
+  - intros i. split; intros Hi; [eapply Permutation_in; [exact P|exact Hi] | eapply Permutation_in; [apply Permutation_sym; exact P|exact Hi]].
+Qed.
+
+(* directory trees *)
+Lemma build_sound fuel ents : forall i bud t bud', build fuel ents i bud = Some (t, bud') -> dtree ents i t.
+Proof.
+  induction fuel as [|k IH]; intros i bud t bud'; cbn [build].
+  - destruct (i =? NOSTREAM) eqn:E; [|discriminate]. intros H; inversion H. apply Z.eqb_eq in E. subst. constructor.
+  - destruct (i =? NOSTREAM) eqn:E.
+    + intros H; inversion H. apply Z.eqb_eq in E. subst. constructor.
+    + destruct bud as [|bud]; [discriminate|].
+      destruct (nth_ent ents i) as [e|] eqn:Ee; [|discriminate].
+      destruct (is_object e) eqn:Eo; [|discriminate].
+      destruct (build k ents (d_left e) bud) as [[l b1]|] eqn:El; [|discriminate].
+      destruct (build k ents (d_right e) b1) as [[r b2]|] eqn:Er; [|discriminate].
+      intros H; inversion H; subst. econstructor; eauto.
+Qed.
+Lemma build_tree_sound ents i t : build_tree ents i = Some t -> dtree ents i t.
+Proof.
+  unfold build_tree. destruct (build (S (length ents)) ents i (length ents)) as [[t' b']|] eqn:E; [|discriminate].
+  intros H; inversion H; subst. eapply build_sound; exact E.
+Qed.
